@@ -958,7 +958,13 @@ func main() {
 		var coq string
 		var nt bool
 		var tags []string
-		ok := w.Guard(c, 20*time.Second, func() {
+		// wall-clock watchdog: generous, the machine may be heavily loaded; the
+		// at-limit cases move several hundred MiB
+		limit := 60 * time.Second
+		if c.Kind == "edge" {
+			limit = 300 * time.Second
+		}
+		ok := w.Guard(c, limit, func() {
 			switch c.Kind {
 			case "pipe":
 				coq, nt, tags = e.runPipe(c)
@@ -1053,7 +1059,7 @@ func main() {
 	// pipeline runs with small messages
 	nSmall, nMedium, nLarge := 700, 60, 8
 	if cfg.Thorough() {
-		nSmall, nMedium, nLarge = 12000, 800, 60
+		nSmall, nMedium, nLarge = 8000, 600, 60
 	}
 	for i := 0; i < nSmall; i++ {
 		add(e.randPipe(r, algs, func() int { return smallSize(r) }, 4, 3), "random")
